@@ -266,6 +266,7 @@ pub fn should_gzip(headers: &HeaderMap) -> bool {
                 let Some(q) = q
                     .trim()
                     .strip_prefix("q=")
+                    .or_else(|| q.trim().strip_prefix("Q="))
                     .and_then(|q| parse_qvalue(q).ok())
                 else {
                     return false; // unparseable.
@@ -274,9 +275,10 @@ pub fn should_gzip(headers: &HeaderMap) -> bool {
             }
         };
 
-        if coding == "gzip" {
+        // Content-coding names are case-insensitive (RFC 7231 section 3.1.2.1).
+        if coding.eq_ignore_ascii_case("gzip") {
             gzip_q = Some(quality);
-        } else if coding == "identity" {
+        } else if coding.eq_ignore_ascii_case("identity") {
             identity_q = Some(quality);
         } else if coding == "*" {
             star_q = Some(quality);
